@@ -449,6 +449,8 @@ def jobs(tier):
          "week": [{"W": (1, 1), "y0": (2, 2), "y1": (0, 0)}, {"W": (26, 26), "y0": (2, 2), "y1": (0, 0)},
                   {"W": (52, 53), "y0": (2, 2), "y1": (0, 0)}]}
     for mode in (C.MODES4 if th else ["gregorian"]):
+        last = {"gregorian": 366, "360day": 360, "365day": 365, "366day": 366}[mode]
+        lastdom = 30 if mode == "360day" else 31
         for fmt in FORMATS:
             datey = any(x in fmt for x in ("%Y", "%m", "%d", "%j", "%F"))
             for rep in C.REPS:
@@ -459,19 +461,19 @@ def jobs(tier):
                         continue
                     J.append(("job_strftime", dict(mode=mode, rep=rep, fmt=fmt, ranges=rg)))
         # %s output for every year (the subtraction from 1970 is closed-form); day windows keep the case splits small
-        for rg in ({"DOY": (1, 2)}, {"DOY": (59, 60)}, {"DOY": (365, 366)}):
+        for rg in ({"DOY": (1, 2)}, {"DOY": (59, 60)}, {"DOY": (last - 1, last)}):
             for hh in ((0, 1), (22, 23)):
                 J.append(("job_strftime", dict(mode=mode, rep="ord", fmt="%s", ranges=dict(rg, h=hh, tzh=(-1, 1), tzm=(0, 0)))))
-        J.append(("job_strftime", dict(mode=mode, rep="cal", fmt="at %s", ranges={"M": (12, 12), "D": (31, 31), "h": (22, 23), "tzh": (-1, 1), "tzm": (0, 0)})))
+        J.append(("job_strftime", dict(mode=mode, rep="cal", fmt="at %s", ranges={"M": (12, 12), "D": (lastdom, lastdom), "h": (22, 23), "tzh": (-1, 1), "tzm": (0, 0)})))
         for fmt in FULL:
             for rep in (C.REPS if th else ["cal", "ord"]):
                 for rg in W[rep]:
                     J.append(("job_roundtrip", dict(mode=mode, rep=rep, fmt=fmt, full=True, ranges=rg)))
         for fmt in PARTIAL:
             J.append(("job_roundtrip", dict(mode=mode, rep="cal", fmt=fmt, full=False, ranges={"M": (2, 3)})))
-            J.append(("job_roundtrip", dict(mode=mode, rep="ord", fmt=fmt, full=False, ranges={"DOY": (360, 366)})))
-        for rep, rgs in (("ord", [{"DOY": (1, 2)}, {"DOY": (59, 60)}, {"DOY": (365, 366)}]),
-                         ("cal", [{"M": (1, 1), "D": (1, 1)}, {"M": (12, 12), "D": (31, 31)}])):
+            J.append(("job_roundtrip", dict(mode=mode, rep="ord", fmt=fmt, full=False, ranges={"DOY": (last - 6, last)})))
+        for rep, rgs in (("ord", [{"DOY": (1, 2)}, {"DOY": (59, 60)}, {"DOY": (last - 1, last)}]),
+                         ("cal", [{"M": (1, 1), "D": (1, 1)}, {"M": (12, 12), "D": (lastdom, lastdom)}])):
             for rg in rgs:
                 for hh in ((0, 0), (23, 23)):
                     J.append(("job_epoch", dict(mode=mode, rep=rep, ranges=dict(rg, h=hh))))
